@@ -1,6 +1,6 @@
 """C06 — a completed DKG leaves all nodes with one group and matching key shares (PARTIAL: DESIGN.md §3 C06, §6)."""
 import glob, json, os
-from .. import core, dkgrun as D
+from .. import core, dkgrun as D, bcast as B
 
 ID = "C06"
 MODULE = "DrandProofs.C06"
@@ -10,17 +10,35 @@ THEOREMS = ["Drand.DKG." + t for t in [
     "c06_group_function", "c06_group_fields", "c06_nodes_from_qual", "c06_seed_epoch1", "c06_seed_later",
     "c06_transition_epoch1", "c06_transition_same_round", "c06_transition_refines", "c06_transition_differs", "c06_transition_iff_same_round",
     "c06_one_group_partial", "c06_one_group_counterexample"]] + \
-    ["Drand.DKG.Pedersen." + t for t in ["c06_share_eq_eval", "c06_share_on_poly", "c06_pub_constant", "c06_threshold_signs", "c06_threshold_verifies"]]
+    ["Drand.DKG.Pedersen." + t for t in ["c06_share_eq_eval", "c06_share_on_poly", "c06_pub_constant", "c06_threshold_signs", "c06_threshold_verifies"]] + \
+    ["Drand.DKG.Bcast." + t for t in [
+        "tie_bcast_recv_order", "tie_bcast_sendout", "tie_bcast_push", "tie_bcast_worker_lifetime", "tie_bcast_queues", "tie_bcast_cfg",
+        "c06_bcast_relayed", "c06_bcast_agreement", "c06_bcast_deliver_valid_once", "c06_bcast_seen_handed", "c06_bcast_workers_live",
+        "c06_bcast_no_overflow", "c06_bcast_invalid_harmless", "c06_bcast_poison_counterexample", "c06_bcast_after_stop_counterexample",
+        "c06_bcast_ctx_bound_workers_counterexample", "c06_bcast_overflow_counterexample"]]
 TRUSTED = ["Lean 4 kernel; axioms per theorem under coverage.axioms",
            "PedersenSpec (hypothesis, not proved): kyber's Pedersen DKG ends on every completing node with the same QUAL and the same bundles, and outputs shares of the "
            "sum of the qualified dealers' polynomials with the matching public coefficients; agreement on QUAL under arbitrary schedules (kyber + echoBroadcast) is "
            "sampled by the differential runs only",
            "go2lean facts (Gen.DKGRun): sort comparator, index assignment, asGroup field map and seed rule, the transition-time tail of startDKGExecution, roundsUntilTransition — tied by tie_* theorems",
+           "go2lean facts (Gen.Bcast): order of the steps of echoBroadcast.BroadcastDKG / sendout / Push* / Stop, the loop shape of sender.run and where its "
+           "context comes from, sendPacket non-blocking, senderQueueSize, channel capacities — tied by tie_bcast_* theorems; the model's two switches "
+           "(record-before-verify, workers-follow-context) ARE these facts (Cfg.asIs)",
+           "harness engine 'bcast': k real echoBroadcast instances (newEchoBroadcast) wired by a scripted net.DKGClient that parks every relay send until "
+           "the script releases it (delivered / link failure); real kyber bundles signed with real keys, verified by the real dkg.VerifyPacketSignature; the "
+           "packet labels (hash, decodes, index known, signature valid) come from the harness's own calls of the decoder and of schnorr.Verify",
+           "echo broadcast, modelled not verified: Go channels and goroutine scheduling (a worker blocked in `range newCh` takes a packet as soon as one is "
+           "offered), the hash of a bundle is collision free and does not cover the signature, gRPC delivery is an event that either hands the packet to "
+           "the peer's BroadcastDKG or returns an error, nothing is retried",
            "harness engine 'dkgrun': n real dkg.Process instances on real bolt stores in one OS process, real kyber DKG, in-memory net.DKGClient (delay, reorder, duplicate, "
            "hold, drop); crypto labels (share on polynomial, t-subset signatures) computed with the real kyber tbls/share primitives",
            "C16 (time model) and C17 (group-hash preimage) are reused; BLAKE2b-256 via python hashlib for the epoch-1 seed comparison",
            "the node's own time.Now() at completion is not observable: the model's transition time is compared for every clock reading in the observed completion window"]
-ASSUMPTIONS = ["synchrony of kyber's DKG: every bundle reaches every node within the phase (TimeBetweenDKGPhases); the harness measures delivery and scheduling lag per "
+ASSUMPTIONS = ["echo broadcast agreement (c06_bcast_agreement) is under explicit fairness hypotheses: the relay i->d of the bundle has been carried out "
+               "(nothing waiting in worker i->d) and was not lost (link i->d delivered it, queue not full, d not stopped); a participant that signs more than "
+               "senderQueueSize(n) distinct bundles can make honest relays drop (c06_bcast_overflow_counterexample)",
+               "a node pushes each of its own bundles once (PushFresh)",
+               "synchrony of kyber's DKG: every bundle reaches every node within the phase (TimeBetweenDKGPhases); the harness measures delivery and scheduling lag per "
                "epoch and discards (counts, does not judge) runs in which the machine was too loaded to meet it — nodes then really do complete with different groups, "
                "which is the documented limit of echoBroadcast and the reason the claim is partial",
                "participants have pairwise distinct public keys", "period is a whole number of seconds >= 1; times within the C16 no-wrap domain"]
@@ -95,8 +113,28 @@ def gen_scripts(ctx, tier):
                     D.initial_line([0], 1, 0, period=r.choice([1, 2]), genesis=-r.range(20, 300)),
                     D.reshare_line([0], [], [], 1, 0, sched="kick=-250"),
                     D.reshare_line([0], [], [], 1, 0, sched="kick=60")]))
+    # G: link faults of the deal phase between two nodes that are not the leader — a one-way cut (the echo broadcast of the
+    # third node is the only path), and a copy of a deal with a broken signature that arrives before the genuine one. The
+    # commands and the gossip are served under request-scoped contexts, as over gRPC.
+    for gi, tok in enumerate(("cut", "forge")):
+        r = rng.fork("G" + tok)
+        o = r.shuffle([0, 1, 2])
+        leader = o[0]
+        a, b = r.shuffle(o[1:])
+        scripts.append((f"G-link-{tok}", [net(unch if gi else D.CHAINED, 3, f"g{gi}", ph=2000),
+                        D.initial_line(o, 2, leader, period=30, genesis=-r.range(50, 500), sched=f"{tok}={a}>{b}"),
+                        D.reshare_line(r.shuffle(o), [], [], 2, leader, sched=f"{tok}={b}>{a}")]))
     if tier == "quick":
         return scripts
+    for k in range(6):
+        r = rng.fork(f"G{k}")
+        n = r.range(3, 5)
+        o = r.shuffle(list(range(n)))
+        a, b = r.shuffle(o[1:])[:2]
+        tok = "cut" if k % 2 else "forge"
+        scripts.append((f"G-link-{tok}-{k}", [net(r.choice(D.SCHEMES), n, f"g{k}", ph=2000),
+                        D.initial_line(o, n // 2 + 1, o[0], period=30, genesis=-r.range(50, 500), sched=f"{tok}={a}>{b}/delay={r.range(5, 40)}"),
+                        D.reshare_line(r.shuffle(o), [], [], n // 2 + 1, o[0], sched=f"cut={a}>{b}/forge={b}>{a}")]))
     # thorough: all 5 schemes, n up to 6, all thresholds, more schedules, 2-3 epochs
     for rep, si, sch in [(rep, si, sch) for rep in range(3) for si, sch in enumerate(D.SCHEMES)]:
         for n in (2, 3, 4, 5, 6):
@@ -145,7 +183,9 @@ def explore(ctx, res):
         # the deeper scripts run only if the quick ones found nothing (a broken proof / tie makes the tier thorough)
         names = {q[0] for q in quick}
         stages.append([x for x in gen_scripts(ctx, tier) if x[0] not in names])
-    acc = {"evals": 0, "validated": 0, "nontriv": set(), "samples": [], "seen": set(),
+    bacc = {}
+    bdist = B.explore(ctx, res, tier, bacc)
+    acc = {"evals": bdist["ops"], "validated": bdist["validated"], "nontriv": set(bacc.get("nontriv", set())), "samples": [], "seen": set(),
            "dist": {"epochs_attempted": 0, "epochs_completed_by_all_live_members": 0, "epochs_completed_partially": 0, "epochs_not_completed": 0,
                     "nodes_completed": 0, "subsets_signed": 0, "n_t": {}, "schemes": {}, "net_stats": {}, "model": {}, "scripts": 0}}
     for stage in stages:
@@ -153,11 +193,14 @@ def explore(ctx, res):
             break
         evaluate(ctx, res, D.run_scripts(stage, workers=8), acc)
     dist = acc["dist"]
+    dist["bcast"] = bdist
     if dist["epochs_attempted"] and dist["nodes_completed"] == 0:
         raise core.Broken("harness:dkgrun", "no DKG completed on any node: the runs say nothing about the property")
     res.cov.update(evaluations=acc["evals"], distinct_nontrivial=len(acc["nontriv"]), traces_validated_against_impl=acc["validated"],
                    samples=acc["samples"], distribution=dist)
-    res.cov["rule"] = ("scripts of 1-5 epochs on 1-4 (thorough: 1-6) real dkg.Process instances with real kyber DKG over an in-memory client: first epoch and reshares "
+    res.cov["rule"] = ("(1) echo broadcast: scripts of 8-50 ops on 2-5 real echoBroadcast instances (own pushes with per-link cut/ok, forged copies first, duplicates, "
+                       "undecodable / unknown-index packets, relay sends released one by one as delivered or cut, request contexts ended, stop, queue overflow), every "
+                       "op compared with the Lean model (full digest of every node) and judged by the reliable-broadcast oracle; (2) scripts of 1-5 epochs on 1-4 (thorough: 1-6) real dkg.Process instances with real kyber DKG over an in-memory client: first epoch and reshares "
                        "(same set, +1, -1, threshold up/down), participant lists permuted, bundles delayed/reordered/duplicated, one slow node, one node offline "
                        "(QUAL a strict subset), completion held to just before / after / across a round boundary; evaluations = epochs run (and judged); non-trivial = distinct "
                        "(scheme, op, group size, threshold, schedule, epoch) on which at least one node completed; traces_validated = completed epochs whose every "
